@@ -323,9 +323,16 @@ var c02Templates = []diffTmpl{
 	// parenthesised varargs in assignments
 	{"local function f(...) local a; g, a = 1, (...); emit(g, a); local b, c; b, c = 2, (...); emit(b, c); local t = {}; t.k, a = a, (...); emit(t.k, a) end; f(x, y); f()", "num"},
 	{"local function f(...) local a, b, c = (...), ...; emit(a, b, c); a, b, c = ..., (...); emit(a, b, c); a = (...); emit(a) end; f(x, y, z)", "num"},
+	// parenthesised calls assigned to parameters and locals
+	{"local function g(v) return v, 9 end; local function f(a) a = (g(a)); return a end; local function f2(a, b) b = (g(b)); a = (g(a)); return a, b end; local function f3(s) s = (s.k(s)); return s end; emit(f(x), f2(y, z)); emit(f3({k = function(o) return x end}))", "num"},
+	{"local function g(v) return v, 9 end; local function f(a, ...) local b, c = 1, 2; a = (...); b = (g(a)); emit(a, b, c); c = (g(b)); emit(a, b, c) end; f(0, x, y); f(z)", "num"},
+	// unpack with explicit bounds beyond the border
+	{"emit(select('#', unpack({x, y}, 1, 4))); emit(unpack({x, y}, 1, 4)); emit(select('#', unpack({}, 1, 3))); emit(unpack({x, nil, z}, 1, 3)); emit(unpack({x, y, z}, 3, 5))", "num"},
 	// the compatibility arg table
 	{"local function f(a, b, ...) return arg end; local r = f(x, y, z, 1); emit(type(r), r.n, r[1], r[2]); local function g() return f(x, y, z) end; local q = g(); emit(type(q), q.n, q[1])", "num"},
 	{"local function f(...) return arg.n, arg[1], arg[3] end; emit(f()); emit(f(x)); emit(f(x, nil, z))", "num"},
+	// proper tail calls from vararg functions: no register is left behind (fixed registry of 256 slots)
+	{"local function loop(n, ...) if n == 0 then return select('#', ...), ... end; return loop(n - 1, ...) end; emit(loop(300, x, y)); local function pp(n, a, ...) if n == 0 then return a end; return pp(n - 1, a, ...) end; emit(pp(300, z, 1, 2, 3))", "num"},
 	// nesting
 	{"local function f(a, b) return a + b, a - b end; local function g(...) return f(...) end; emit(g(f(x, y)))", "num"},
 	{"local function mk() return function(a) return a, x end end; emit(mk()(y)); emit((mk()(y)))", "num"},
@@ -333,10 +340,10 @@ var c02Templates = []diffTmpl{
 
 // C02.tmpl — call and return adjustment, whole pipeline against R-lua.
 //
-//verif:harness prop=C02 tier=quick bounds="35 call templates: 0..3 fixed parameters x vararg x 0..4 arguments x result contexts (statement, parenthesised, middle, last in argument list / return / constructor / assignment), Lua and Go callees, method sugar, __call, tail calls incl. depth 60 > CallStackSize 32; inputs 3 symbolic float64 (or 32-bit ints)"
+//verif:harness prop=C02 tier=quick bounds="39 call templates: 0..3 fixed parameters x vararg x 0..4 arguments x result contexts (statement, parenthesised, middle, last in argument list / return / constructor / assignment), Lua and Go callees, method sugar, __call, tail calls incl. depth 60 > CallStackSize 32; inputs 3 symbolic float64 (or 32-bit ints)"
 func H_C02_tmpl() {
 	t := c02Templates[VChoice(len(c02Templates))]
-	diffRun(t.src, t.src, c01Inputs(t.kind), Options{CallStackSize: 32})
+	diffRun(t.src, t.src, c01Inputs(t.kind), Options{CallStackSize: 32, RegistrySize: 256})
 	VReach("end")
 }
 
@@ -365,12 +372,14 @@ var c03Templates = []diffTmpl{
 	{"fs = {}; for i = 1, 2 do local v = i + x; fs[i] = function() v = v + 1; return v end end; emit(fs[1](), fs[1](), fs[2]())", "int"},
 	{"local f; local ok = xpcall(function() local ok2 = pcall(function() local v = x; f = function() return v end; error('e') end); error('o') end, function(m) return m end); local function junk(a, b, c, d) return d end; junk(1, 2, 3, 4); emit(f())", "num"},
 	{"local x0 = x; local g = function() return x0 end; local x0 = y; emit(g(), x0); do local x0 = z; emit(g(), x0) end; emit(x0)", "num"},
+	{"local fs = {}; local i = 0; ::top:: local v = i + x; fs[#fs + 1] = function() v = v + 1; return v end; i = i + 1; if i < 3 then goto top end; emit(fs[1](), fs[1](), fs[2](), fs[3]())", "int"},
+	{"local function mk() local fs, i = {}, 0; ::top:: local v = i * x; fs[#fs + 1] = function() return v end; i = i + 1; if i < 3 then goto top end; return fs end; local fs = mk(); emit(fs[1](), fs[2](), fs[3]())", "int"},
 	{"local function tail(v) local function get() return v end; return (function(...) return ... end)(get) end; local g = tail(x); local function junk(a, b, c) return c end; junk(1, 2, 3); emit(g())", "num"},
 }
 
 // C03.tmpl — closures and captured variables on every exit path, whole pipeline against R-lua.
 //
-//verif:harness prop=C03 tier=quick bounds="25 closure templates: creation in numeric/generic for, while, repeat, do-blocks and calls; scope left by fall-through, break, goto, return, tail call, caught errors; register-reusing calls before use; inputs symbolic"
+//verif:harness prop=C03 tier=quick bounds="27 closure templates: creation in numeric/generic for, while, repeat, do-blocks and calls; scope left by fall-through, break, goto, return, tail call, caught errors; register-reusing calls before use; inputs symbolic"
 func H_C03_tmpl() {
 	t := c03Templates[VChoice(len(c03Templates))]
 	diffRun(t.src, t.src, c01Inputs(t.kind), Options{})
